@@ -16,6 +16,7 @@ import (
 	"reflect"
 	"strings"
 
+	z "github.com/Oudwins/zog"
 	p "github.com/Oudwins/zog/internals"
 	"github.com/Oudwins/zog/zhttp"
 	"zogverif/mc"
@@ -125,6 +126,13 @@ func c15Scenario(x *mc.X) *mc.Outcome {
 		zhttp.Config.Parsers.Form = func(r *http.Request) p.DpFactory { called = append(called, "form"); return saved.Form(r) }
 		zhttp.Config.Parsers.Query = func(r *http.Request) p.DpFactory { called = append(called, "query"); return saved.Query(r) }
 		defer func() { zhttp.Config.Parsers = saved }()
+	}
+	// what the process did before: nothing, or an execution in which a catching field swallowed a failure of a test
+	// that carries its own message (the library recycles the objects of finished executions)
+	undecodable := map[string]bool{"json truncated": true, "json array": true, "json null": true, "json number": true, "json string": true, "two json documents": true, "form malformed escape": true, "json long, syntax error early": true, "empty": true}
+	if undecodable[body.name] && middleware == 0 && x.Bool("an earlier execution swallowed a nested failure") {
+		var prev struct{ Nick string }
+		z.Struct(z.Schema{"nick": z.String().Min(5, z.Message("nick too short")).Catch("anon")}).Parse(map[string]any{"nick": "ab"}, &prev)
 	}
 	if _, ok := c15Skels[reqX]; !ok {
 		c15Skels[reqX] = c15Skel(reqX)
